@@ -114,24 +114,28 @@ class Sess:
             evs = evs.replace("{SEED%d}" % k, str(inst["seed"] or 0))
         return f"session {self.cfg()} {evs}"
 
-    def set_keys(self, state):
-        """install another user / key set (a V3AgentState describes it); the agent side follows"""
+    def set_keys(self, state, raw_kw=None):
+        """install another user / key set (a V3AgentState describes it); the agent side follows.
+        raw_kw: hand these arguments to the socket as they are (key material user.py would never produce: an empty
+        password, a localized key of the wrong size): the call is expected to fail and to leave the session as it was"""
         import copy
-        kw = e2e.client_kwargs(state)
+        kw = raw_kw or e2e.client_kwargs(state)
         r = e2e.ncall(lambda: self.conv.sock.set_keys(kw["user_name"], kw["auth_alg"], kw["auth_key"], kw["priv_alg"],
                                                       kw["priv_key"]))
         k = len(self.installs)
-        self.events.append(f"setkeys,{hx(kw['user_name'].encode())},{kw['auth_alg']},{hx(kw['auth_key'])},"
-                           f"{kw['priv_alg']},{hx(kw['priv_key'])},{{SEED{k}}}")
-        self.installs.append({"seed": None, "failed": 0, "priv": state.priv_alg})
         self.records.append({"kind": "setkeys", "session": self.label, "result": r, "state": state})
         if r[0] == "ok":
+            self.events.append(f"setkeys,{hx(kw['user_name'].encode())},{kw['auth_alg']},{hx(kw['auth_key'])},"
+                               f"{kw['priv_alg']},{hx(kw['priv_key'])},{{SEED{k}}}")
+            self.installs.append({"seed": None, "failed": 0, "priv": state.priv_alg})
             self.peer = copy.copy(self.peer)
             self.peer.state = state
             self.conv.peer = self.peer
             self.expect.append("ok")
         else:
-            self.installs[-1]["priv"] = self.installs[-2]["priv"]
+            # a refused key set installs nothing: no new salt seed to learn, the installation in force goes on
+            self.events.append(f"setkeys,{hx(kw['user_name'].encode())},{kw['auth_alg']},{hx(kw['auth_key'])},"
+                               f"{kw['priv_alg']},{hx(kw['priv_key'])},0")
             self.expect.append(render_result(r))
         return r
 
